@@ -440,6 +440,32 @@ func (o *OracleC13) After(x *Exec, op *Op, res *Res) {
 	case KExportImp:
 		return
 	}
+	// "a claim pays the accumulated entitlement", rewards not yet withdrawn from the distribution
+	// module included: an operation that settles a position first withdraws its validator's pending
+	// rewards, whatever the validator's bond status — nothing may be left pending for it afterwards
+	mustSettle := map[int]bool{}
+	switch op.K {
+	case KClaim, KUndelegate:
+		if res.OK && exists(op.D, op.V, op.Denom) && started(op.Denom) {
+			mustSettle[op.V] = true
+		}
+	case KDelegate:
+		if res.OK {
+			mustSettle[op.V] = true
+		}
+	case KRedelegate:
+		if res.OK {
+			mustSettle[op.W] = true
+			if started(op.Denom) {
+				mustSettle[op.V] = true
+			}
+		}
+	}
+	for v := range w.Vals {
+		if mustSettle[v] && !now[v].IsZero() {
+			x.Fail("C13", "settles", "%s succeeded but left %s of rewards for validator %d (status %s) unwithdrawn in x/distribution: the accumulated entitlement of the positions on it is not settled", op.K, now[v], v, post.Vals[v].Status)
+		}
+	}
 	// claims never change a share record
 	if op.K == KClaim || op.K == KClaimAll {
 		for _, d := range pre.Dels {
